@@ -362,6 +362,7 @@ package fit
 
 //@ func (e *encoder) writeDefMesg(def *encodeMesgDef) (err error)
 //@   props C05 C06 C07
+//@   gassign ndefs(e) := ndefs(e)+1 when err == nil
 //@   locals rangeindex int, fdef fieldDef, f *field
 //@@ what is written for each field: its number, the size rule above and its base type, three bytes
 //@   callsite Write [field-def] fdef.num == f.num && fdef.size == defSize(f) && fdef.btype == fbase(f.t)
@@ -373,6 +374,7 @@ package fit
 //@  |   outb(e.w, old(wpos(e.w))+3) == ite(isLE(e.arch), byte(def.globalMesgNum), byte(def.globalMesgNum>>8)) && outb(e.w, old(wpos(e.w))+4) == ite(isLE(e.arch), byte(def.globalMesgNum>>8), byte(def.globalMesgNum)) &&
 //@  |   outb(e.w, old(wpos(e.w))+5) == byte(len(def.fields))
 //@   ensures [prefix] forall k in 0..old(wpos(e.w)) :: outb(e.w, k) == old(outb(e.w, k))
+//@   ensures [monotone] wpos(e.w) >= old(wpos(e.w))
 //@   assigns wpos(e.w), outb(e.w, *)
 //@   loop 0 invariant [range] -1 <= rangeindex && rangeindex < len(def.fields)
 //@   loop 0 invariant [length] wpos(e.w) == old(wpos(e.w))+6+3*(rangeindex+1)
@@ -397,7 +399,7 @@ package fit
 //@   locals i byte, max byte
 //@   requires e.w != nil && (isLE(e.arch) || isBE(e.arch)) && f != nil && rvvalid(value)
 //@   requires [array] farray(f.t) ==> fkind(f.t) == 0 && rvcls(value) == 5
-//@   requires [kinds] !farray(f.t) ==> (fkind(f.t) == 1 || fkind(f.t) == 2 ==> typeis[time.Time](ifaceOf(value)) && timeInRange(ifaceOf(value).(time.Time))) && (fkind(f.t) == 3 ==> typeis[Latitude](ifaceOf(value))) && (fkind(f.t) == 4 ==> typeis[Longitude](ifaceOf(value)))
+//@   requires [kinds] !farray(f.t) ==> (fkind(f.t) == 1 || fkind(f.t) == 2 ==> typeis[time.Time](ifaceOf(value))) && (fkind(f.t) == 3 ==> typeis[Latitude](ifaceOf(value))) && (fkind(f.t) == 4 ==> typeis[Longitude](ifaceOf(value)))
 //@   requires [strings] fkind(f.t) == 0 && fbase(f.t) == types.BaseString ==> f.length >= 1
 //@   ensures [append] wpos(e.w) >= old(wpos(e.w)) && (forall k in 0..old(wpos(e.w)) :: outb(e.w, k) == old(outb(e.w, k)))
 //@   assigns wpos(e.w), outb(e.w, *)
@@ -419,14 +421,11 @@ package fit
 //@  |   (farray(pf(m, n).t) ==> fkind(pf(m, n).t) == 0 && rvClass(int(m), pf(m, n).sindex) == 5) &&
 //@  |   (!farray(pf(m, n).t) && (fkind(pf(m, n).t) == 1 || fkind(pf(m, n).t) == 2) ==> rvTypeTag(int(m), pf(m, n).sindex) == typetag[time.Time]()) &&
 //@  |   (!farray(pf(m, n).t) && fkind(pf(m, n).t) == 3 ==> rvTypeTag(int(m), pf(m, n).sindex) == typetag[Latitude]()) &&
-//@  |   (!farray(pf(m, n).t) && fkind(pf(m, n).t) == 4 ==> rvTypeTag(int(m), pf(m, n).sindex) == typetag[Longitude]())
+//@  |   (!farray(pf(m, n).t) && fkind(pf(m, n).t) == 4 ==> rvTypeTag(int(m), pf(m, n).sindex) == typetag[Longitude]()) &&
+//@  |   (fkind(pf(m, n).t) == 0 && fbase(pf(m, n).t) == types.BaseString ==> pf(m, n).length >= 1)
 
 //@@ a definition built by the encoder lists profile fields of its message
 //@ pred enc_def_of(def *encodeMesgDef) := wf_encdef(def) && (forall k in 0..len(def.fields) :: def.fields[k] == pf(def.globalMesgNum, def.fields[k].num))
-//@@ domain of the encoder (C06): timestamps are whole seconds in the FIT range, strings have room for their terminator
-//@ pred enc_domain(mesg reflect.Value, def *encodeMesgDef) := forall k in 0..len(def.fields) ::
-//@  | (!farray(def.fields[k].t) && (fkind(def.fields[k].t) == 1 || fkind(def.fields[k].t) == 2) ==> timeInRange(ifaceOf(rvfieldof(mesg, def.fields[k].sindex)).(time.Time))) &&
-//@  | (fkind(def.fields[k].t) == 0 && fbase(def.fields[k].t) == types.BaseString ==> def.fields[k].length >= 1)
 //@ ghost func nrecords(e *encoder) int
 
 //@@ a data record: header byte = local message type, then every field of the definition, in its order, through writeField
@@ -435,7 +434,6 @@ package fit
 //@   locals rangeindex int
 //@   use enc_field_ok(def.globalMesgNum)
 //@   requires e.w != nil && (isLE(e.arch) || isBE(e.arch)) && def != nil && enc_def_of(def) && rvismsg(mesg, int(def.globalMesgNum)) && def.globalMesgNum < 0xFF00
-//@   requires [domain] enc_domain(mesg, def)
 //@   ensures [header] err == nil ==> wpos(e.w) >= old(wpos(e.w))+1 && outb(e.w, old(wpos(e.w))) == def.localMesgNum&0x0F
 //@   ensures [append] wpos(e.w) >= old(wpos(e.w)) && (forall k in 0..old(wpos(e.w)) :: outb(e.w, k) == old(outb(e.w, k)))
 //@   gassign nrecords(e) := nrecords(e)+1 when err == nil
@@ -446,12 +444,27 @@ package fit
 //@   loop 0 decreases len(def.fields) - rangeindex
 //@   loop 0 dispatches writeField
 
-//@ func (e *encoder) encodeDefAndDataMesg(mesg reflect.Value) (err error)
-//@   props C05
+//@@ assumed (reflection: NumField, Kind, IsNil, comparison of boxed values): the definition lists profile fields of
+//@@ the message that mesg views, under the local type asked for
+//@ func getEncodeMesgDef(mesg reflect.Value, localMesgNum byte) (r *encodeMesgDef)
+//@   props C05 C06 C07
 //@   trusted
-//@   requires e.w != nil
+//@   requires rvvalid(mesg) && rvmt(mesg) < 0xFF00 && rvismsg(mesg, rvmt(mesg)) && knownMsgNums[MesgNum(rvmt(mesg))]
+//@   ensures r != nil && fresh(r) && enc_def_of(r) && r.localMesgNum == localMesgNum && int(r.globalMesgNum) == rvmt(mesg)
+//@   assigns nothing
+
+//@ ghost func ndefs(e *encoder) int
+
+//@@ C07: a message that is present is written as one definition record followed by one data record; the zero Value
+//@@ (an absent optional message) writes nothing
+//@ func (e *encoder) encodeDefAndDataMesg(mesg reflect.Value) (err error)
+//@   props C05 C07
+//@   requires e.w != nil && (isLE(e.arch) || isBE(e.arch)) && rvmsgarg(mesg)
+//@   requires [known] rvvalid(rvindirect(mesg)) ==> knownMsgNums[MesgNum(rvmt(rvindirect(mesg)))]
+//@   ensures [written] err == nil && rvvalid(rvindirect(mesg)) ==> ndefs(e) == old(ndefs(e))+1 && nrecords(e) == old(nrecords(e))+1
+//@   ensures [absent] !rvvalid(rvindirect(mesg)) ==> err == nil && ndefs(e) == old(ndefs(e)) && nrecords(e) == old(nrecords(e)) && wpos(e.w) == old(wpos(e.w))
 //@   ensures [append] wpos(e.w) >= old(wpos(e.w)) && (forall k in 0..old(wpos(e.w)) :: outb(e.w, k) == old(outb(e.w, k)))
-//@   assigns wpos(e.w), outb(e.w, *)
+//@   assigns wpos(e.w), outb(e.w, *), ndefs(e), nrecords(e)
 //@ func (e *encoder) encodeFile(file reflect.Value) (err error)
 //@   props C05
 //@   trusted
@@ -479,18 +492,25 @@ package fit
 //@ func (e *encoder) encodeValue(value interface{}, f *field) (err error)
 //@   props C05 C06
 //@   requires e.w != nil && (isLE(e.arch) || isBE(e.arch)) && f != nil
-//@   requires [kinds] (fkind(f.t) == 1 || fkind(f.t) == 2 ==> typeis[time.Time](value) && timeInRange(value.(time.Time))) && (fkind(f.t) == 3 ==> typeis[Latitude](value)) && (fkind(f.t) == 4 ==> typeis[Longitude](value))
+//@   requires [kinds] (fkind(f.t) == 1 || fkind(f.t) == 2 ==> typeis[time.Time](value)) && (fkind(f.t) == 3 ==> typeis[Latitude](value)) && (fkind(f.t) == 4 ==> typeis[Longitude](value))
 //@   requires [strings] fkind(f.t) == 0 && fbase(f.t) == types.BaseString ==> f.length >= 1
 //@@ C06: the fixed 4-byte kinds go out as the value the decoder reads back (FIT seconds, local = UTC seconds + zone offset, semicircles)
-//@   ensures [time-utc] err == nil && fkind(f.t) == 1 ==> wpos(e.w) == old(wpos(e.w))+4 && out32(e, old(wpos(e.w)), uint32(tsec(value.(time.Time))-631065600))
-//@   ensures [time-local] err == nil && fkind(f.t) == 2 ==> wpos(e.w) == old(wpos(e.w))+4 && out32(e, old(wpos(e.w)), uint32(tsec(value.(time.Time))-631065600+tzoff(value.(time.Time))))
+//@   ensures [time-utc] err == nil && fkind(f.t) == 1 && timeInRange(value.(time.Time)) ==> wpos(e.w) == old(wpos(e.w))+4 && out32(e, old(wpos(e.w)), uint32(tsec(value.(time.Time))-631065600))
+//@   ensures [time-local] err == nil && fkind(f.t) == 2 && timeInRange(value.(time.Time)) ==> wpos(e.w) == old(wpos(e.w))+4 && out32(e, old(wpos(e.w)), uint32(tsec(value.(time.Time))-631065600+tzoff(value.(time.Time))))
 //@   ensures [lat] err == nil && fkind(f.t) == 3 ==> wpos(e.w) == old(wpos(e.w))+4 && out32(e, old(wpos(e.w)), uint32(value.(Latitude).semicircles))
 //@   ensures [lng] err == nil && fkind(f.t) == 4 ==> wpos(e.w) == old(wpos(e.w))+4 && out32(e, old(wpos(e.w)), uint32(value.(Longitude).semicircles))
 //@   ensures [append] wpos(e.w) >= old(wpos(e.w)) && (forall k in 0..old(wpos(e.w)) :: outb(e.w, k) == old(outb(e.w, k)))
 //@   assigns wpos(e.w), outb(e.w, *)
 
+//@ lemma file_msgs_known()
+//@   props C05 C07 C15
+//@   reveal tables
+//@   concl knownMsgNums[MesgNumFileId] && knownMsgNums[MesgNumFileCreator] && knownMsgNums[MesgNumTimestampCorrelation]
+
 //@ func Encode(w io.Writer, file *File, arch binary.ByteOrder) (err error)
 //@   props C05 C07
+//@   use file_msgs_known()
+//@   requires [arch] isLE(arch) || isBE(arch)
 //@   slow header 120
 //@   slow fresh-key 120
 //@   requires [args] w != nil && file != nil && 0 <= wpos(w) && wpos(w) < 1<<32
@@ -688,8 +708,7 @@ package fit
 
 //@ func encodeTime(t time.Time) (r uint32)
 //@   props C17 C06
-//@   requires 0 <= tns(t) && tns(t) < 1000000000 && tsec(t) >= 631065600 && tsec(t) < 631065600+(1<<32)
-//@   ensures [seconds] r == uint32(tsec(t)-631065600)
+//@   ensures [seconds] 0 <= tns(t) && tns(t) < 1000000000 && tsec(t) >= 631065600 && tsec(t) < 631065600+(1<<32) ==> r == uint32(tsec(t)-631065600)
 //@   assigns nothing
 
 //@ func IsBaseTime(t time.Time) (r bool)
